@@ -26,6 +26,8 @@ const WORDS: &[&str] = &[
 ];
 const WRAPS: &[(&str, &str)] = &[
     ("", ""), ("", ""), ("", ""), ("(", ")"), ("\"", "\""), ("", "."), ("'", "',"), ("[", "]!"), ("", "?"), ("\"'", "'\""), ("", ":"), ("-", ";"), ("", "`"), ("{", "}.."),
+    // the escape character: a colon followed by a back-tick is punctuation, not part of the word
+    ("", ":`"), ("(", ":`)"), ("", ":`."), ("\"", ":`\""), ("", "`:"), ("", ".`"),
 ];
 
 #[derive(Clone, Debug, Serialize, Deserialize, Hash)]
